@@ -215,7 +215,10 @@ class P(Prop):
             inp = {"evidence": [self._gen_evidence(rng, nrows(), 0)]}
         elif step == "pipe_merge":
             ev = [self._gen_evidence(rng, nrows(), i) for i in range(rng.choice([2, 2, 3]))]
-            inp = {"evidence": ev, "results": self._gen_results(rng, ev)}
+            res = self._gen_results(rng, ev)
+            while not res:  # run_update_evidence passes "--perc_results" unconditionally: argparse needs >= 1 file
+                res = self._gen_results(rng, ev)
+            inp = {"evidence": ev, "results": res}
         else:
             inp = {"evidence": [self._gen_evidence(rng, nrows(), i) for i in range(2)]}
         pre = {}
@@ -325,7 +328,10 @@ class P(Prop):
     def reference(self, case, d, spec_for):
         ref = os.path.join(d, "ref")
         os.makedirs(ref, exist_ok=True)
-        self.run_in_process(spec_for(ref))
+        try:
+            self.run_in_process(spec_for(ref))
+        except SystemExit as e:  # argparse: must not take the worker process down
+            raise RuntimeError("the step called sys.exit(%r) in the reference run" % (e.code,))
         outs = []
         for f in self.finals(case["step"], case["input"]):
             with open(os.path.join(ref, f), "rb") as fh:
